@@ -18,7 +18,11 @@ class MessageHead(packet.Packet):
         formats.remove_padding(self)
 
         if not self.payload:
-            raise formats.VerifyError('Message without payload')
+            # Messages with no fields (KEEPALIVE) are complete with only
+            # the header octet, scapy does not construct their payload
+            msgcls = self.guess_payload_class(b'')
+            if not (issubclass(msgcls, formats.NoPayloadPacket) and not msgcls.fields_desc):
+                raise formats.VerifyError('Message without payload')
         if isinstance(self.payload, packet.Raw):
             raise formats.VerifyError('Message with improper payload')
 
